@@ -8,7 +8,8 @@
    the empty list.  Every theorem is for EVERY list length (0 and 1 included) and EVERY operation
    satisfying the stated contract; "= Ok ..." says in particular that no index is out of range
    (Panic) and no loop exceeds its fuel (OutOfFuel). *)
-From CC Require Import Base.Prelude Model.Prefix Model.Iterate Proofs.PrefixProofs Proofs.IterateProofs.
+From CC Require Import Base.Prelude Model.Prefix Model.Iterate Proofs.PrefixProofs Proofs.IterateProofs
+  Proofs.SymProofs.
 Local Open Scope nat_scope.
 
 (* ------------------------------------------------------------------ combination strategies *)
@@ -67,6 +68,37 @@ Theorem C07_pick_spec : forall (T : Type) (op : T -> T -> T),
     length ys = length xs /\
     forall i, i < length xs -> nth_error ys i = fold1 op (firstn (S i) xs).
 Proof. exact @pick_spec. Qed.
+
+(* ------------------------------------------------------------------ symbolic runs
+   [sym_run which n] is the model of the hook inline::verif_hooks::run_strategy over the FREE term
+   algebra (items = Leaf 0 .. Leaf (n-1), combiner = Comb); its result is what the harness compares
+   with the trees rebuilt from /repo's recorded combination log, for every length it runs. *)
+
+(* Evaluating the trees of a symbolic run under ANY operation and ANY valuation of the leaves
+   gives the run of the same strategy on the evaluated leaves (no associativity needed): the
+   symbolic tie therefore speaks for every concrete combiner. *)
+Theorem C07_symbolic_run_evaluates : forall (T : Type) (op : T -> T -> T) (env : N -> T) which n,
+  rmap (map (term_eval op env)) (sym_run which n) =
+  let items := map (term_eval op env) (leaves n) in
+  match which with
+  | 0 => let* r := log_depth_sum op items in Ok [r]
+  | 1 => prefix_sums_binary_ascent op items
+  | 2 => prefix_sums_sqrt_trick op items
+  | 3 => prefix_sums_segment_tree op items
+  | 4 => pick_prefix_sum_algorithm op n LvlDefault items
+  | _ => pick_prefix_sum_algorithm op n LvlExtreme items
+  end.
+Proof. exact @sym_run_eval. Qed.
+
+(* For an associative operation, output i of every symbolic prefix-sum run denotes
+   leaf 0 op leaf 1 op ... op leaf i. *)
+Theorem C07_symbolic_run_sound : forall (T : Type) (op : T -> T -> T) (env : N -> T) which n ts,
+  (forall a b c, op (op a b) c = op a (op b c)) ->
+  1 <= which -> sym_run which n = Ok ts ->
+  length ts = n /\
+  forall i, i < n -> option_map (term_eval op env) (nth_error ts i)
+                     = fold1 op (firstn (S i) (map (fun k => env (N.of_nat k)) (seq 0 n))).
+Proof. exact @sym_run_sound. Qed.
 
 (* ------------------------------------------------------------------ Iterate strategies
    [iterate_ref f s0 xs] is the evaluator's own semantics of Operation::Iterate
@@ -157,6 +189,11 @@ Example C07_example_iterate :
   iterate_associative f false 0 LvlDefault (1, 0) [(2, 1); (3, 5); (1, 7)]
   = Ok ((6, 15), [2; 7; 13]).
 Proof. split; [intros; apply C07_example_affine_assoc|reflexivity]. Qed.
+Example C07_example_symbolic :
+  sym_run 3 5 = Ok [Leaf 0; Comb (Leaf 0) (Leaf 1); Comb (Comb (Leaf 0) (Leaf 1)) (Leaf 2);
+                    Comb (Comb (Leaf 0) (Leaf 1)) (Comb (Leaf 2) (Leaf 3));
+                    Comb (Comb (Comb (Leaf 0) (Leaf 1)) (Comb (Leaf 2) (Leaf 3))) (Leaf 4)]%N.
+Proof. reflexivity. Qed.
 
 Print Assumptions C07_log_depth_sum_spec.
 Print Assumptions C07_binary_ascent_spec.
@@ -165,6 +202,8 @@ Print Assumptions C07_sqrt_trick_any_block_size.
 Print Assumptions C07_isqrt_is_floor_sqrt.
 Print Assumptions C07_segment_tree_spec.
 Print Assumptions C07_pick_spec.
+Print Assumptions C07_symbolic_run_evaluates.
+Print Assumptions C07_symbolic_run_sound.
 Print Assumptions C07_iterate_simple_spec.
 Print Assumptions C07_iterate_empty_state_spec.
 Print Assumptions C07_iterate_associative_spec.
